@@ -36,6 +36,27 @@ Seen(r) == [p \in DOMAIN r.stab |-> r.stab[p] = 1]
 
 R == Recs[i]
 
+\* C15, second half: agent_trend / agent_position / best_agent_trend / best_agent_position return, for every requested
+\* iteration, the cost / position of the idx-th best agent of that generation IN THE TASK'S DIRECTION (the cost is unique
+\* even with ties; the position may be that of any tied agent); the last entry of best_agent_trend is best_solution.cost
+RankedCost(dir, gen, idx) ==       \* cost of the idx-th best (1-based) agent of a generation
+    LET us == [k \in DOMAIN gen |-> gen[k].u]
+        srt == IF dir = "min" THEN SortSeq(us, <) ELSE SortSeq(us, >)
+    IN srt[idx]
+TrendOK(r, evo, best) ==
+    /\ r.trend_ok
+    /\ \A idx \in DOMAIN r.trend :
+          /\ Len(r.trend[idx]) = Len(evo) /\ Len(r.tpos[idx]) = Len(evo)
+          /\ \A gi \in DOMAIN evo :
+                /\ r.trend[idx][gi] = RankedCost(r.dir, evo[gi], idx)
+                /\ \E a \in DOMAIN evo[gi] : evo[gi][a].p = r.tpos[idx][gi] /\ evo[gi][a].u = r.trend[idx][gi]
+    /\ Len(r.sub.full) = Len(evo) /\ r.sub.full[Len(evo)] = best.u
+    /\ \A gi \in DOMAIN evo : r.sub.full[gi] = RankedCost(r.dir, evo[gi], 1)
+                              /\ \E a \in DOMAIN evo[gi] : evo[gi][a].p = r.sub.fullpos[gi] /\ evo[gi][a].u = r.sub.full[gi]
+    /\ Len(r.sub.trend) = Len(r.sub.iters) /\ Len(r.sub.pos) = Len(r.sub.iters)
+    /\ \A k \in DOMAIN r.sub.iters : r.sub.trend[k] = r.sub.full[r.sub.iters[k]] /\ r.sub.pos[k] = r.sub.fullpos[r.sub.iters[k]]
+
+
 FailsEnter(r) ==
     Unless(r.crash = "", "C06.crash")
     \cup Unless(r.cfg_same, "C09.cfg")
@@ -73,6 +94,7 @@ FailsReturn(r) ==
         \cup Unless(\A k \in DOMAIN evo : Len(evo[k]) >= 1 /\ Len(evo[k]) <= r.N, "C10.bounds")
         \cup Unless(r.sizecls # "exact" \/ \A k \in DOMAIN evo : Len(evo[k]) = r.N, "C10.exact")
         \cup Unless(~r.elitist \/ \A k \in DOMAIN evo : \A a \in DOMAIN evo[k] : ~BetterU(r.dir, evo[k][a].u, best.u), "C17.bestever")
+        \cup Unless(TrendOK(r, evo, best), "C15.trend")
         \cup Unless(r.steps >= 1 /\ r.steps <= Len(r.lefe) /\ C(r.steps), "C04.early")
         \cup Unless(\A j \in 1..(r.steps - 1) : j > Len(r.lefe) \/ ~C(j), "C04.late")
         \cup Unless(r.steps <= r.mc, "C04.bounded")
